@@ -8,12 +8,12 @@ The obligation is "no write precedes a reachable throw" in the state-returning m
 every function of `Model/Edit.lean` is shown to return the *input* state whenever it fails, and the
 exception classes that can escape are enumerated (`.key` / `.value` on well-formed inputs).
 -/
-namespace Nima
+namespace Nima.EditFail
 
-open Node
+open Nima.Node Nima.EditM
 
 /-! ### the `EditM` monad, unfolded -/
-namespace EditM
+section
 variable {α β : Type}
 
 @[simp] theorem pure_apply (a : α) (d : Doc) : (pure a : EditM α) d = (.ok a, d) := rfl
@@ -35,9 +35,9 @@ theorem bind_ok {m : EditM α} {f : α → EditM β} {d d1 : Doc} {a : α} (h : 
 /-- `bind` when the first computation fails -/
 theorem bind_error {m : EditM α} {f : α → EditM β} {d d1 : Doc} {e : Err} (h : m d = (.error e, d1)) :
     (m >>= f) d = (.error e, d1) := by simp [h]
-end EditM
+end
 
-open EditM
+open Nima.EditM
 
 @[simp] theorem fresh_apply (d : Doc) : fresh d = (.ok d.next, { d with next := d.next + 1 }) := rfl
 
@@ -1148,4 +1148,4 @@ theorem removeValue_error {p : Text} {d d' : Doc} {e : Err}
         have h := key
         exact Rejected.of_clean (removeValueInAttrset_clean _ _) (resolveTarget_ok hr).1 h
 
-end Nima
+end Nima.EditFail
